@@ -43,6 +43,13 @@ enum {
   EC_try_again = 1011, EC_host_unreachable = 113, EC_network_unreachable = 101, EC_fault = 14, EC_not_found = 2003
 };
 
+#ifndef VF_MAX
+#define VF_MAX(a, b) ((a) > (b) ? (a) : (b))
+#endif
+#ifndef VF_MIN
+#define VF_MIN(a, b) ((a) < (b) ? (a) : (b))
+#endif
+
 /* C++ bool is 0 or 1; a C _Bool lvalue with unconstrained bytes is not: every invariant pins its bools */
 #define BOOL_OK(b) ((b) == 0 || (b) == 1)
 
